@@ -6,7 +6,12 @@ In its real order:
 
 1. `rule_expand_macro_invocations` — in-program macros, depth budget 100, per-invocation renaming of the
    variables that originate in the macro body (`body_items_rename_macro_originated_vars`; since fix 3a6dc9a it also
-   visits the conditions ATTACHED to a body clause, `r(x) if c`, `r(x) let y = e`: finding F25);
+   visits the conditions ATTACHED to a body clause, `r(x) if c`, `r(x) let y = e`: finding F25); items are expanded
+   left to right and the FIRST error is returned at once — in rule bodies, macro bodies, the alternatives of a
+   disjunction and rule heads alike (`punctuated_try_map`; for heads and disjunctions since fix deae510: before it all
+   their items were expanded before an error was looked for, the same answer after exponentially many steps for a
+   macro that invokes itself twice per level — finding FM8).  The functions below thread `Except` (and the expansion
+   state) through the items in that order, so they have had the first-error behaviour all along;
 2. `rule_desugar_disjunction_nodes` — one rule per choice of disjuncts (`products`);
 3. `rule_desugar_pattern_args` — `?pat` becomes a variable `__arg_pattern_N` plus `if let pat = __arg_pattern_N`;
 4. `rule_desugar_wildcards` — `_` in clause arguments becomes `__N`;
@@ -287,7 +292,8 @@ def expandInv (ops : Ops E B G A) (defs : Defs E B G P A) (full : Bool)
       let renamed := renItems ops full τ exp
       .ok (renItems ops true (untagMap j) renamed, { st' with gs := st'.gs + (originated j exp).length })
 
-/-- the alternatives of a disjunction: every alternative is expanded at the next depth -/
+/-- the alternatives of a disjunction: every alternative is expanded at the next depth, left to right, up to the first
+error (`punctuated_try_map`, fix deae510) -/
 def expandAltsWith {S : Type} (recur : S → SItems E B G P A (MInv E) → Except ExpandErr (SItems E B G P A (MInv E) × S)) :
     S → SAlts E B G P A (MInv E) → Except ExpandErr (SAlts E B G P A (MInv E) × S)
   | st, .nil => .ok (.nil, st)
@@ -330,7 +336,8 @@ def expandBody (ops : Ops E B G A) (defs : Defs E B G P A) (full : Bool) :
     | .cons _ _ => .error .recursive
   | d + 1 => fun st items => expandItemsWith ops defs full (expandBody ops defs full d) st items
 
-/-- head position: no renaming (head clauses bind nothing); identifiers of the macro body keep their spelling -/
+/-- head position: no renaming (head clauses bind nothing); identifiers of the macro body keep their spelling; the head
+items left to right up to the first error (`punctuated_try_map`, fix deae510; a head clause never fails) -/
 def expandHeadsWith (ops : Ops E B G A) (defs : Defs E B G P A)
     (recur : List (SHead E (MInv E)) → Except ExpandErr (List (SHead E (MInv E)))) :
     List (SHead E (MInv E)) → Except ExpandErr (List (SHead E (MInv E)))
